@@ -3,9 +3,9 @@
    canonical text result. The case reader is the Buffer model itself. *)
 From GD Require Import Base.Prelude Model.Strings Model.Buffer Model.Unreal2Str Model.BufOps.
 From GD Require Import Model.Net Model.Valve Model.ValveShow Model.Master Model.Settings Model.Quake Model.Unreal2.
-From GD Require Import Spec.Rand Spec.ValveSpec Spec.ValveGen Spec.CaseEnc Spec.MasterSpec Spec.QuakeSpec Spec.Unreal2Spec Spec.GamespySpec Spec.GamesSpec.
+From GD Require Import Spec.Rand Spec.ValveSpec Spec.ValveGen Spec.CaseEnc Spec.MasterSpec Spec.QuakeSpec Spec.Unreal2Spec Spec.GamespySpec Spec.GamesSpec Spec.MinecraftSpec.
 From GD Require Import Model.View Gen.CommonImpls Model.ViewInst Spec.ViewSpec.
-From GD Require Import Model.Dispatch Gen.ModulesTable Gen.GamesTable Model.IdCheck Model.Gamespy Model.Games.
+From GD Require Import Model.Dispatch Gen.ModulesTable Gen.GamesTable Model.IdCheck Model.Gamespy Model.Games Model.Minecraft.
 
 Definition rd_u8 : R N := read_uint true 1.
 Definition rd_u16 : R N := read_uint true 2.
@@ -511,6 +511,60 @@ Definition case_spec_game : R bytes :=
     ret (line (valve_script st o gathering_default) (show_outcome show_game_response (bat_expected st))
            (str "np=" ++ show_N (lenN (vs_players st)) ++ str ";wf=" ++ show_bool (wf_state bat_engine st))).
 
+(* family 33: minecraft. variant 0 auto, 1 java, 2 bedrock, 3 legacy, 4 / 5 / 6 legacy 1.6 / 1.4 / beta 1.8.
+   After the script: the serde_json::from_str answers the case needs. *)
+Definition case_minecraft : R bytes :=
+  let* variant := rd_u8 in
+  let* port := rd_u16 in
+  let* rs := rd_opt (let* h := rd_bytes16 in let* p := rd_i32 in ret (mk_rs h p)) in
+  let* ts := rd_tsettings in
+  let* n := rd_script in
+  let* nj := rd_u8 in
+  let* tbl := rd_list (N.to_nat nj) (let* txt := rd_bytes32 in let* valid := rd_u8 in
+                                     if valid =? 0 then ret (txt, None) else let* v := rd_tree 12 in ret (txt, Some v)) in
+  let json := fun t => match find (fun e => bytes_eqb (fst e) t) tbl with Some e => Some (snd e) | None => None end in
+  match ts with
+  | Ok t =>
+      if 1000000 <? ts_retries_or_default t then ret model_abstains
+      else ret (if variant =? 0 then show_query show_java (query_auto json port t rs n)
+                else if variant =? 1 then show_query show_java (query_java json port t rs n)
+                else if variant =? 2 then show_query show_bedrock (query_bedrock port t n)
+                else if variant =? 3 then show_query show_java (query_legacy port t n)
+                else show_query show_java (query_legacy_specific (if variant =? 4 then V1_6 else if variant =? 5 then V1_4 else VB1_8) port t n))
+  | o => ret (show_outcome (fun _ => []) o ++ str "|")
+  end.
+
+(* family 133: minecraft spec case: seed, variant (as family 33) -> udp | tcp | expected | json text | tags *)
+Definition show_conn (c : tcp_conn) : bytes :=
+  match c with Refused => str "R" | Stream d st => (if st then str "s" else str "") ++ show_hex d end.
+Definition case_spec_minecraft : R bytes :=
+  let* seed := rd_u64 in
+  let* variant := rd_u8 in
+  let w := fst (gen_world seed) in
+  let line (udp : list udp_event) (tcp : list tcp_conn) (expected : bytes) (js : bytes) (tags : bytes) :=
+    intercalate (str ",") (map show_event udp) ++ str "|" ++ intercalate (str ",") (map show_conn tcp) ++ str "|"
+    ++ expected ++ str "|" ++ show_hex js ++ str "|" ++ tags in
+  let jtext := match w_java w with Some s => java_json s | None => [] end in
+  if variant =? 0 then
+    ret (line (world_udp w) (world_tcp w) (show_outcome show_java (auto_expected w)) jtext (str "conns=" ++ auto_connections w))
+  else if variant =? 1 then
+    match w_java w with
+    | Some s => ret (line [] [Stream (java_stream s) false] (show_outcome show_java (Ok (java_expected s))) jtext (str "conns=T"))
+    | None => ret (str "SKIP")
+    end
+  else if variant =? 2 then
+    match w_bedrock w with
+    | Some s => ret (line [Datagram (bedrock_pong s)] [] (show_outcome show_bedrock (Ok (bedrock_expected s))) [] (str "conns=U"))
+    | None => ret (str "SKIP")
+    end
+  else
+    let g := if variant =? 4 then V1_6 else if variant =? 5 then V1_4 else VB1_8 in
+    match (match g with V1_6 => w_v16 w | V1_4 => w_v14 w | VB1_8 => w_vb18 w end) with
+    | Some s => ret (line [] [Stream (kick (match g with V1_6 => v16_text s | _ => old_text s end)) false]
+                       (show_outcome show_java (Ok (match g with V1_6 => v16_expected s | _ => old_expected g s end))) [] (str "conns=T"))
+    | None => ret (str "SKIP")
+    end.
+
 Definition run_case_R : R bytes :=
   let* fam := rd_u8 in
   if fam =? 1 then case_bufops
@@ -528,12 +582,14 @@ Definition run_case_R : R bytes :=
   else if fam =? 20 then case_quake
   else if fam =? 22 then case_unreal2
   else if fam =? 30 then case_idcheck
+  else if fam =? 33 then case_minecraft
   else if fam =? 41 then case_gamespy 1
   else if fam =? 42 then case_gamespy 2
   else if fam =? 43 then case_gamespy 3
   else if fam =? 50 then case_game
   else if fam =? 110 then case_spec_valve
   else if fam =? 150 then case_spec_game
+  else if fam =? 133 then case_spec_minecraft
   else if fam =? 141 then case_spec_gamespy 1
   else if fam =? 142 then case_spec_gamespy 2
   else if fam =? 143 then case_spec_gamespy 3
